@@ -39,9 +39,13 @@ SHARD = 120
 # model parameters: the four repairs found with this check are in /repo (6afb079 skip_self, 3959fba parent_reuse, e202d3b
 # parents_seen, 671469c parents_nsp).  All True = the code as it is now.  C05_OLD=skip_self,... evaluates the model of the code
 # WITHOUT a repair (only useful to replay an old defect against a reverted copy:  C05_OLD=parents_nsp VERIF_REPO=<copy> ./vcheck C05 quick).
-FIXES = {"skip_self": True, "parents_seen": True, "parent_reuse": True, "parents_nsp": True}
+FIXES = {"skip_self": True, "parents_seen": True, "parent_reuse": True, "parents_nsp": True,
+         "mono": False}   # proposed repair notes/fixes/C05-compare-start-times-on-one-clock.diff: NOT in /repo
 for _k in filter(None, os.environ.get("C05_OLD", "").split(",")):
     FIXES[_k] = False
+for _k in filter(None, os.environ.get("C05_NEW", "").split(",")):
+    FIXES[_k] = True
+BTIME0 = 1500000000
 
 OPS = ["children", "children_rec", "parent", "parents"]
 HANG_S = 0.4      # guard for a call the model predicts not to terminate
@@ -256,6 +260,51 @@ def _vanish_case(rng):
                vanish=victims)
 
 
+def _clock_case(rng):
+    """One Process object, create_time() cached or not, the btime line of /proc/stat steps, psutil.boot_time() is or is
+    not called, then the call.  Start ticks are whole seconds so that ticks/CLK + btime is exact in floats (ties included)."""
+    sec = 100
+    S = rng.choice([50, 200, 1000]) * sec
+    root_s = max(0, S - rng.choice([1, 5, 40, 200]) * sec)
+    tab = [[1, 0, min(root_s, S)]]
+    gp = rng.choice([None, None, 3])
+    if gp:
+        tab.append([3, 1, min(root_s, S)])
+    par = 3 if gp else 1
+    par_start = {1: tab[0][2], 3: tab[0][2]}[par]
+    pid = 20
+    tab.append([pid, par, S])
+    if rng.random() < 0.5:       # the parent started within a few seconds of the caller
+        for e in tab:
+            if e[0] == par:
+                e[2] = max(0, S - rng.choice([0, 1, 2, 30]) * sec)
+    nxt = 30
+    for _ in range(rng.choice([1, 2, 3, 5])):
+        d = rng.choice([0, 1, 2, 30, 90, -1, -2, -30, -90]) * sec      # negative: a recycled PID, older than the caller
+        tab.append([nxt, pid, max(0, S + d)])
+        if rng.random() < 0.4:
+            tab.append([nxt + 1, nxt, max(0, S + d + rng.choice([0, 1, 50]) * sec)])
+        nxt += 2
+    delta = rng.choice([1, 2, 3, 50, 100, 1000, -1, -2, -3, -50, -100, -1000])
+    b1 = BTIME0 + delta
+    pat = rng.choice(["ct-set", "ct-set", "ct-set", "ct-set-boot", "ct-set-boot", "set-boot-ct", "boot-ct-set", "set-ct-boot",
+                      "ct-set-boot-set-boot", "set", "set-boot", "ct-set-ct"])
+    evs = {"ct-set": [["ct"], ["set", b1]], "ct-set-boot": [["ct"], ["set", b1], ["boot"]],
+           "set-boot-ct": [["set", b1], ["boot"], ["ct"]], "boot-ct-set": [["boot"], ["ct"], ["set", b1]],
+           "set-ct-boot": [["set", b1], ["ct"], ["boot"]],
+           "ct-set-boot-set-boot": [["ct"], ["set", b1], ["boot"], ["set", BTIME0 - delta], ["boot"]],
+           "set": [["set", b1]], "set-boot": [["set", b1], ["boot"]], "ct-set-ct": [["ct"], ["set", b1], ["ct"]]}[pat]
+    op = rng.choice(OPS)
+    cache = None
+    if op in ("parent", "parents") and rng.random() < 0.5:
+        cache = 1
+    if rng.random() < 0.3:
+        rng.shuffle(tab)
+    c = _mk(op, tab, pid, S, any(e[0] == "ct" for e in evs), cache, [], "clock-%s-%s" % (op, pat))
+    c["clock"] = evs
+    return c
+
+
 def _vanish_exhaustive():
     import itertools
     out = []
@@ -272,7 +321,7 @@ def _vanish_exhaustive():
 
 
 def gen_cases(rng, tier):
-    n_rand = {"quick": 900, "thorough": 14000, "search": 2500}[tier]
+    n_rand = {"quick": 700, "thorough": 14000, "search": 2500}[tier]
     max_hang = {"quick": 40, "thorough": 400, "search": 40}[tier]
     cases = []
     hang = 0
@@ -297,6 +346,8 @@ def gen_cases(rng, tier):
         cases.append(_history_case(rng))
     for _ in range(n_van):
         cases.append(_vanish_case(rng))
+    for _ in range({"quick": 300, "thorough": 4000, "search": 800}[tier]):
+        cases.append(_clock_case(rng))
     # ---- random
     for _ in range(n_rand):
         tab, motif = _random_table(rng)
@@ -347,19 +398,26 @@ def gen_cases(rng, tier):
 
 # ------------------------------------------------------------------ Coq terms
 def _fx():
-    return "(mk_fixes %s %s %s %s)" % (G.bo(FIXES["skip_self"]), G.bo(FIXES["parents_seen"]), G.bo(FIXES["parent_reuse"]),
-                                       G.bo(FIXES["parents_nsp"]))
+    return "(mk_fixes %s %s %s %s %s)" % (G.bo(FIXES["skip_self"]), G.bo(FIXES["parents_seen"]), G.bo(FIXES["parent_reuse"]),
+                                          G.bo(FIXES["parents_nsp"]), G.bo(FIXES["mono"]))
+
+
+def clock_events(case):
+    """The clock history of the caller object before the call: list of ["ct"] | ["set", btime seconds] | ["boot"]."""
+    if "clock" in case:
+        return case["clock"]
+    return [["ct"]] if case["cached"] else []
 
 
 def coq_term(case):
     tab = G.lst(["(%s,%s,%s)" % (G.z(p), G.z(pp), G.z(s)) for p, pp, s in case["tab"]])
-    obj = "(Build_pobj %s %s %s)" % (G.z(case["pid"]), G.z(case["ident"]),
-                                     G.opt(case["ident"] if case["cached"] else None, G.z))
+    evs = G.lst([{"ct": "HCt", "boot": "HBoot"}.get(e[0]) or "(HSet %s)" % G.z(e[1]) for e in clock_events(case)])
+    obj = "(mk_obj %s %s %s %s)" % (G.z(case["pid"]), G.z(case["ident"]), G.z(BTIME0), evs)
     gone, goneb = vanish_sets(case)
     return "run_%s %s %s %s %s %s %s" % (case["op"], _fx(), tab, G.zs(gone), G.zs(goneb), G.opt(case["cache"], G.z), obj)
 
 
-TAGS = ["alive", "recycled", "self_desc", "self_parent", "chain_cyclic", "stale", "is_lowest", "ancestor_vanishes"]
+TAGS = ["alive", "recycled", "self_desc", "self_parent", "chain_cyclic", "stale", "is_lowest", "ancestor_vanishes", "clock_skew"]
 
 
 def coq_struct(case, raw):
@@ -379,6 +437,8 @@ def finding_key(case, coq):
             return "children-yields-caller"
     if op == "parents" and tg["alive"] and tg["chain_cyclic"] and not FIXES["parents_seen"]:
         return "parents-nonterminating"
+    if tg["alive"] and tg["clock_skew"] and not FIXES["mono"]:
+        return "age-test-mixes-clocks"
     if op == "parents" and tg["alive"] and tg["ancestor_vanishes"] and not FIXES["parents_nsp"]:
         return "parents-ancestor-vanishes"
     if op in ("parent", "parents") and tg["alive"] and tg["stale"]:
@@ -458,7 +518,7 @@ def impl_run(case, coq, env):
     from psutil import _pslinux
     from pv import fakeproc
     root = os.path.join(env["work"], "proc")
-    fakeproc.FakeProc(root)               # wipes and recreates the tree, writes /proc/stat (btime)
+    fp = fakeproc.FakeProc(root, btime=BTIME0)   # wipes and recreates the tree, writes /proc/stat (btime)
     fakeproc.attach(psutil, root)         # also clears psutil._pmap / _pids_reused
     clk = _pslinux.CLOCK_TICKS
     tab = case["tab"]
@@ -506,8 +566,16 @@ def impl_run(case, coq, env):
             cur = {e[0]: e for e in tab}.get(pid)
             _write_stat(root, pid, cur[1] if cur else 0, ident)
             obj = psutil.Process(pid)
-            if case["cached"]:
-                obj.create_time()
+            # ---- clock history on this object: create_time() calls, steps of the btime line, psutil.boot_time() calls
+            for ev in clock_events(case):
+                if ev[0] == "ct":
+                    obj.create_time()
+                elif ev[0] == "set":
+                    fp.set_btime(ev[1])
+                elif ev[0] == "boot":
+                    psutil.boot_time()
+                else:
+                    raise ValueError(ev)
             if cur is None:
                 shutil.rmtree(os.path.join(root, str(pid)))
             else:
